@@ -38,7 +38,8 @@ TRUSTED_BASE = [
     'truthiness of the signature header field; the literals 255 (signature field), b"l" = 108, 8 (header padding), '
     'widths 4/4/1 of the three length fields',
     'tools/tables/c05_wire.py: alignment table, kind of every unmarshallers entry (classified by behaviour on probes, '
-    'incl. lying lengths that pin width / byte order / unsignedness), _headerFormat, _mtype keys, header code of `signature`',
+    'incl. lying lengths that pin width / byte order / unsignedness), header signature, accepted message types, header code '
+    'of `signature` (the last three through harness/c03_probe.py: public behaviour, private names as fast path)',
     'the measure of work: `steps` = invocations of marshal.unmarshallers entries (counted by wrapping them), `work` = steps '
     '+ len(ct) per invocation + data bytes sliced by string / signature reads + characters genCompleteTypes touches per '
     'piece (Cost.firstCost, mirrored by piece_cost).  Unit costs of CPython primitives (a slice is O(its length), '
@@ -353,7 +354,9 @@ def work_bound(c):
     return ((L + 1) ** 2 + L + 1) * step_bound(c) + 3 * n + (L + 1) ** 2
 
 
-HEADER_LEN = 11     # set from message._headerFormat in run()
+HEADER_LEN = 11     # length of the header signature; set by locate() in run()
+HSIG = 'yyyyuua(yv)'  # the header signature, located through public behaviour (harness/c03_probe.py)
+SIGCODE = 8         # header field code of the body signature, located the same way
 
 
 # ------------------------------------------------------------------ generators: valid values
@@ -479,8 +482,11 @@ def gen_message(rng, marshal, message):
     else:
         m = message.SignalMessage('/org/x/Obj', 'Changed', 'org.x.Iface', signature=sig, body=body)
     raw = m.rawMessage
-    if fds is None and rng.random() < 0.4:      # the same message in big-endian (message._marshal always encodes the body little-endian)
-        raw = big_endian_message(marshal, message, m)
+    if fds is None and rng.random() < 0.4:      # the same message in big-endian (the library always encodes the body little-endian)
+        try:
+            raw = big_endian_message(marshal, raw, sig, body) or raw
+        except Exception:
+            pass
     # parseMessage always gets a list (protocol.py passes its own): the right one, one cut short, or []
     if fds:
         r = rng.random()
@@ -803,8 +809,7 @@ def length_fields(marshal, raw, fn):
     message is decoded from a suffix slice; `len(raw) - len(data)` is its base.)"""
     found = []
     saved = dict(marshal.unmarshallers)
-    width = {marshal.unmarshal_string: 4, marshal.unmarshal_array: 4, marshal.unmarshal_signature: 1,
-             marshal.unmarshal_variant: 1}
+    width = {'s': 4, 'o': 4, 'a': 4, 'g': 1, 'v': 1}      # by DBus type code (the wire format), not by function object
 
     def wrap(f, w):
         def rec(ct, data, offset, lendian, oobFDs):
@@ -813,9 +818,7 @@ def length_fields(marshal, raw, fn):
         return rec
     try:
         for k, f in saved.items():
-            w = width.get(f)
-            if w is None and k in 'so':
-                w = 4
+            w = width.get(k)
             if w is not None:
                 marshal.unmarshallers[k] = wrap(f, w)
         try:
@@ -852,16 +855,46 @@ def field_lies(raw, le, fields, extra=()):
     return out
 
 
-def big_endian_message(marshal, message, m):
-    """the message `m` (already marshalled little-endian) encoded entirely in big-endian byte order."""
-    body = b''
-    if m.signature:
-        body = b''.join(marshal.marshal(m.signature, m.body, 0, False)[1])
-    flags = (0 if m.expectReply else 1) | (0 if m.autoStart else 2)
-    hdr = b''.join(marshal.marshal(message._headerFormat,
-                                   [ord('B'), m._messageType, flags, m._protocolVersion, len(body), m.serial, m.headers],
-                                   lendian=False)[1])
-    return hdr + b'\0' * (-len(hdr) % 8) + body
+def big_endian_message(marshal, raw, sig, body):
+    """`raw` (a little-endian message built by the library) re-encoded entirely in big-endian byte order.  The header is
+    transcoded at the byte level from the wire format alone (fixed part, then the (yv) fields whose variants are o / s / g / u),
+    the body is re-marshalled by the library's public marshal() - no private attribute of the message object is touched.
+    None when the header holds anything else."""
+    le_body = b'' if not sig else b''.join(marshal.marshal(sig, body, 0, False)[1])
+    n = struct.unpack_from('<I', raw, 12)[0]
+    e = Enc(False)
+    e.b += b'B' + raw[1:4]
+    e.u32(len(le_body))
+    e.u32(struct.unpack_from('<I', raw, 8)[0])
+    e.u32(n)
+    pos, end = 16, 16 + n
+    while pos < end:
+        pos += -pos % 8
+        e.pad(8)
+        code, slen = raw[pos], raw[pos + 1]
+        vs = raw[pos + 2: pos + 2 + slen]
+        pos += 2 + slen + 1
+        e.u8(code)
+        e.sig(vs)
+        if vs in (b'o', b's'):
+            pos += -pos % 4
+            ln = struct.unpack_from('<I', raw, pos)[0]
+            e.string(raw[pos + 4: pos + 4 + ln])
+            pos += 4 + ln + 1
+        elif vs == b'g':
+            ln = raw[pos]
+            e.sig(raw[pos + 1: pos + 1 + ln])
+            pos += 1 + ln + 1
+        elif vs == b'u':
+            pos += -pos % 4
+            e.u32(struct.unpack_from('<I', raw, pos)[0])
+            pos += 4
+        else:
+            return None
+    if pos != end:
+        return None
+    e.pad(8)
+    return bytes(e.b) + le_body
 
 
 # ------------------------------------------------------------------ observation + judgement
@@ -873,6 +906,31 @@ class Runner:
         self.counter = Counter(marshal)
         self.pending = []       # (stream, case)
         self.frame_ratio = 1.0  # frames the tree under test uses per frame of the model's estimate (calibrate_frames)
+        self.steps_hook = True  # wrapping marshal.unmarshallers sees the decoder's dispatches
+        self.work_hook = True   # wrapping marshal.genCompleteTypes sees the pieces the decoder iterates over
+
+    def check_hooks(self):
+        """The counters hang on two module-level names (`marshal.unmarshallers`, `marshal.genCompleteTypes`).  If a tree
+        dispatches or splits through something else, the counts are blind - that is the harness's problem, not a finding:
+        the comparison of counts is switched off with a note, the other oracles (alarm, memory cap, sliced bytes, result
+        size, scaling) stay."""
+        c = {'op': 'u', 'sig': 'ay', 'le': True, 'off': 0, 'data': struct.pack('<I', 2) + b'\x07\x09'}
+        self.counter.install()
+        try:
+            o = self.impl(c)
+        finally:
+            self.counter.restore()
+        if o['status'] != 'ok':
+            return
+        if o['steps'] != 3:
+            self.steps_hook = self.work_hook = False
+            self.ctx.note('advisory: wrapping marshal.unmarshallers counts %d invocations for unmarshal("ay", 2 bytes) instead '
+                          'of 3 - the decoder dispatches through something else; invocation / work counts are not compared '
+                          'and the step budget cannot stop a runaway decode (alarm and memory cap still do)' % o['steps'])
+        elif o['work'] != 11:
+            self.work_hook = False
+            self.ctx.note('advisory: wrapping marshal.genCompleteTypes does not see the decoder\'s signature splitting '
+                          '(work %d instead of 11 for unmarshal("ay", 2 bytes)); `work` is not compared' % o['work'])
 
     def calibrate_frames(self):
         """How many interpreter frames one nesting level costs is a property of the tree under test (a helper function
@@ -1055,9 +1113,9 @@ class Runner:
         if (mst == 'ok') != (st == 'ok'):
             bad.append('outcome')
         elif st == 'ok':
-            if msteps != obs['steps']:
+            if self.steps_hook and msteps != obs['steps']:
                 bad.append('steps')
-            if mwork != obs['work']:
+            if self.work_hook and mwork != obs['work']:
                 bad.append('work')
             if c['op'] == 'u' and mcons != obs['consumed']:
                 bad.append('consumed')
@@ -1068,9 +1126,9 @@ class Runner:
         else:
             if mst != st:
                 ctx.stat('error-class-drift %s (model %s)' % (st, mst))
-            if obs['steps'] > msteps:
+            if self.steps_hook and obs['steps'] > msteps:
                 bad.append('steps-after-error')
-            if obs['work'] > mwork:
+            if self.work_hook and obs['work'] > mwork:
                 bad.append('work-after-error')
         if obs['steps'] > obs['bound']:
             bad.append('bound')
@@ -1135,10 +1193,10 @@ class Runner:
         """the value parseMessage would use as body signature (real header decoder, itself under budget and alarm);
         '' when the header decode does not finish or fails."""
         def fn():
-            hval = self.marshal.unmarshal(self.message._headerFormat, raw, 0, raw[:1] == b'l', [])[1]
+            hval = self.marshal.unmarshal(HSIG, raw, 0, raw[:1] == b'l', [])[1]
             sig = ''
             for code, v in hval[6]:
-                if self.message._hcode.get(code) == 'signature':
+                if code == SIGCODE:
                     sig = v
             return sig
         r = guarded(self.counter, step_bound({'op': 'p', 'data': raw}) + 1, fn)
@@ -1166,6 +1224,28 @@ class Runner:
             self.counter.restore()
 
 
+def locate(ctx, marshal, message):
+    """Header signature and the field code of the body signature, through PUBLIC behaviour (harness/c03_probe.py: the
+    bytes of a message the module itself builds must decode under the candidate; parse a message carrying each field
+    code and see which attribute is set).  The private names `message._headerFormat` / `_hcode` are only its fast path;
+    when they are gone the probe's advisory goes into the evidence notes."""
+    global HEADER_LEN, HSIG, SIGCODE
+    from harness import c03_probe as P
+    adv = []
+    try:
+        HSIG = P.header_signature(message, marshal, adv)
+        codes = [k for k, v in P.field_by_code(message, marshal, HSIG, adv).items() if v == 'signature']
+        if len(codes) == 1:
+            SIGCODE = codes[0]
+        else:
+            ctx.note('no unique header field code sets `signature` (%r): keeping %d' % (codes, SIGCODE))
+    except Exception as e:          # the harness's own reach into the tree: never a finding about the tree
+        ctx.note('locating the header signature / signature field code failed (%r): keeping %r / %d' % (e, HSIG, SIGCODE))
+    HEADER_LEN = len(HSIG)
+    for a in adv:
+        ctx.note('advisory: ' + a)
+
+
 def recursion_limit_check(ctx):
     """A tree that raises the interpreter's recursion limit at import makes "RecursionError after ~330 nesting levels"
     (the bound this harness and the property's reading rely on) false; guarded() would hide it by setting its own limit."""
@@ -1187,13 +1267,13 @@ def recursion_limit_check(ctx):
 
 
 def run(ctx):
-    global HEADER_LEN
     from txdbus import marshal, message
-    HEADER_LEN = len(message._headerFormat)
+    locate(ctx, marshal, message)
     rng = ctx.rng
     thorough = ctx.tier == 'thorough'
     R = Runner(ctx, marshal, message)
     recursion_limit_check(ctx)
+    R.check_hooks()
     R.calibrate_frames()
 
     # ---- corpus first
@@ -1366,13 +1446,13 @@ def run(ctx):
 
 def replay(ctx, data):
     from txdbus import marshal, message
-    global HEADER_LEN
-    HEADER_LEN = len(message._headerFormat)
+    locate(ctx, marshal, message)
     R = Runner(ctx, marshal, message)
     if data['input'].get('op') == 'import':
         return recursion_limit_check(ctx)
     if 'scaling' in data['input']:
         return R.scaling([data['input']['n']], True)
+    R.check_hooks()
     R.calibrate_frames()
     R.add(data.get('stream', 'replay'), case_from_json(data['input']))
     R.flush()
